@@ -35,7 +35,9 @@ def run_schedule(kinds, prefix, stale=None, raises=()):
     if stale is not None:
         with open(lock_path, 'x'):
             pass
-        age = 700.0 if stale == 'old' else 1.0
+        # old: expired before anybody arrives; young: a live foreign lock;
+        # aging: expires while the waiters are in their retry loops
+        age = {'old': 700.0, 'young': 1.0, 'aging': 597.0}[stale]
         now = worlds.TIME_BASE
         with fsjail.unjailed():
             os.utime(lock_path, (now - age, now - age))
@@ -121,7 +123,11 @@ def judge(kinds, stale, raises, ex, info):
     if info['counter'] != info['entered']:
         v('lost-update', f'{info["entered"]} write sections ran but the '
           f'counter they increment reads {info["counter"]}')
-    if stale != 'young':
+    if stale == 'aging':
+        # the foreign holder never releases: timing out is admissible, and so
+        # is taking the lock over once it has expired -- one writer at a time
+        pass
+    elif stale != 'young':
         if info['stuck'] or info['timeout']:
             v('not-granted', f'stuck {info["stuck"]}, timed out '
               f'{info["timeout"]} although every holder released')
@@ -170,6 +176,7 @@ def tasks(tier):
         T.append((kinds, None, ((0, 0),), b))
         T.append((kinds, 'old', (), b))
     T.append((('W', 'W'), 'young', (), 1))
+    T.append((('W', 'W'), 'aging', (), 2))
     T.append((('W', 'W', 'W'), None, (), 2))
     T.append((('W', 'W', 'W'), 'old', (), 2))
     if tier != 'quick':
